@@ -7,46 +7,46 @@ NOTE_COMMON = ("Holds only inside the bounds printed in evidence (pre: lines). T
                "/verif/stubs and /verif/envmodel (lmdb contract model, msgpack identity, fake asyncio, SQL subset, crypto oracle), "
                "reference semantics under /verif/refs. Inconclusive obligations are reported and not counted.")
 CHECKS = {
- "C18": dict(text="Every arrival sequence of <=3 (quick) / <=4 (thorough) messages over an integer clock, rule sets of one or two rules per scope (ip/global/address), two addresses, two commands: window bound, no over-blocking, address override, exemption, bounded state, cleanup, option parsing – decided per obligation by the solver over all values in the bounds.",
-             ref="§5 C18", note="clock = arbitrary non-decreasing integers (exact arithmetic; float rounding outside the claim). "),
- "C02": dict(text="LMDB scanner completeness per index (kinds, authors, author+kind, tags, created_at range scan, ids): every store of <=2 records (3 in the thorough tier for kinds/created_at/ids) with one symbolic byte per value/timestamp/id, 1-2 match values in planner order, symbolic since/until: each record whose value is requested and whose created_at is strictly inside the window is yielded. Decided by the solver over all byte values inside the bounds.",
-             ref="§5 C02", note="LMDB replaced by the contract model stubs/lmdb (sorted key list, MDB_SET_RANGE/MDB_PREV semantics). SQL side and planner/end-to-end obligations: see evidence for what is currently included. "),
- "C04": dict(text="EVENT and EOSE frames produced by the real serializer/sender for a symbolic sub id, content or tag item (<=2 characters over an alphabet with one representative per JSON lexical class) and symbolic tag structure equal the frame assembled with the trusted encoders or parse (json.loads) to the expected array.",
-             ref="§5 C04", note="json.encoder.encode_basestring (C) replaced by a reference implementation validated against it at import; numbers checked by the hole technique (concrete). "),
- "C03": dict(text="is_signed + Event.verify with SHA-256/secp256k1 replaced by a solver-chosen oracle: acceptance implies the claimed id equals the hash of the event's own fields, the signature oracle accepted (sig, hash) under the event's pubkey and every delegation tag was accepted; type-confused fields (13 tag shapes, 5 created_at types, 5 hex variants) never pass.",
-             ref="§5 C03", note="crypto is an oracle (claims hold for any behaviour of the crypto); admission-path gating (no effect before validation) is covered by C06/C14 obligations. "),
- "C14": dict(text="can_do == role-set intersection for all subsets of a 3-role alphabet, all token shapes and actions; save gate on both backends and query gate in subscribe raise 'restricted' before any effect; output validator consulted on live pushes; homeserver recipe validators equal their documented predicate.",
-             ref="§5 C14", note="storages are instantiated without constructors, everything behind the gate is a recorder stub; role read-back through the SQL engine / signed service events is outside (engine + secp256k1). "),
- "C15": dict(text="check_auth_event/authenticate for every combination of <=2 (thorough 3) tags out of 13 tag variants (URL substrings/superstrings/empty, foreign or truncated challenges, bare tags), symbolic kind/created_at/now and signature oracle, four ways of configuring relay_urls: acceptance implies valid signature, kind 22242, |now-created_at|<600, every relay tag equals a configured URL, every challenge tag equals this connection's challenge.",
-             ref="§5 C15", note="signature = oracle bool; unpredictability of secrets.token_hex is not a solver question (outside). "),
+ "C01": dict(text="Both backends. LMDB: the real planner + the real generated residual matcher (hole technique) against reference NIP-01 matching for 8 filter shapes (ints symbolic incl. since/until = 0, strings solver-selected, event tags incl. int/object items); the real repr()-based compilation on 13 hostile names/values; ids_are_hex / check_tags on symbolic suffixes and every JSON type. SQL: the real build_query template (holes) parsed and evaluated by sqlmini over a symbolic row, row-wise equivalence with the reference for 8 shapes (two filters, two tag names); the real evaluate_filter on SYMBOLIC tag name/values (quote, backslash, NUL, percent) for both dialect branches; quoting lemma for all strings <=3 characters over the lexical classes.",
+             ref="5 C01", note="repr()/SQL literals are assumed to evaluate back to their value and that is checked on hostile pools and symbolic strings up to the stated lengths; SQLite's own evaluation is outside. "),
+ "C02": dict(text="LMDB scanner completeness per index (kinds, authors, author+kind, tags in two value families incl. prefixes/NUL/empty, created_at range scan, ids; timestamp byte low/top; 1-2 matches) over every store of <=2 records (3 in thorough for three indexes); completeness direction of the generated matcher (8 shapes) and of the SQL WHERE clause (8 shapes). End-to-end exactly-once / under-the-limit completeness runs under C12 (same code path).",
+             ref="5 C02", note="lmdb contract model; planner/executor thread pool and FTS outside. "),
+ "C03": dict(text="is_signed + Event.verify with SHA-256/secp256k1 replaced by a class-level solver-chosen oracle: acceptance implies id == hash of the event's own fields, signature accepted under the event's pubkey, every delegation tag accepted; 13 tag shapes x 5 created_at types x hex variants never pass malformed; a second submission with the same id but another sig / forged delegation / other pubkey is rejected (verification caches).",
+             ref="5 C03", note="crypto is an oracle (claims hold for any behaviour of the crypto); gate-before-effects is covered by C06/C14/C16 obligations. "),
+ "C04": dict(text="EVENT/EOSE frames from the real serializer and sender for a symbolic sub id / content / tag item (<=2 characters over 10 lexical classes) and symbolic tag structure with items of every JSON type (incl. values equal across types, real lru_cache) equal the trusted rendering or parse to the expected array; numbers by hole technique; the event read back from SQL rows / LMDB msgpack rows / the matcher reconstruction and the object pushed live equal the accepted event field for field incl. types.",
+             ref="5 C04", note="encode_basestring (C) replaced by a reference validated against it at import; msgpack identity stub; SQLite column affinity outside. "),
+ "C05": dict(text="check_event equals the real LMDB matcher (6 shapes) and the SQL WHERE clause (6 shapes) for symbolic ints and solver-selected strings (excused: ephemeral kinds, bound timestamps, LMDB delegation); fan-out over 2 connections x <=2 subscriptions (same sub id on both, closed/replaced subscriptions, events before/after the stored-query tasks ran, textually colliding ClientIDs) delivers each of two consecutive events exactly once per matching open subscription.",
+             ref="5 C05", note="loop model envmodel/fake_asyncio.py; stored-query task body stubbed by its contract; interleavings beyond the model outside. "),
+ "C06": dict(text="Exactly one OK frame per EVENT through the real handler for every storage outcome/throttle/limiter/payload/auth combination; LMDB: OK true implies retrievable after the writer ran (created_at/kind at 2^32, 2^64, -1; tag shapes), refusal leaves no trace, duplicates (stored or still queued) are not acknowledged or broadcast again; SQL: duplicate / fresh / no-permission submissions, sequences of <=4 submissions incl. re-submitted deletions, notification only after commit.",
+             ref="5 C06", note="writer thread body executed synchronously on the lmdb model; SQL via the engine model; msgpack 64-bit overflow of tag ints not modelled. "),
+ "C07": dict(text="Engine-fault half only. LMDB writer with the k-th mutation failing (k symbolic) while an event is applied in 5 scenarios: store equals the state before, next task applied, fault in the next task all-or-nothing. SQL add_event with the k-th statement failing: tables unchanged, insert slot released, nothing broadcast, next event stored.",
+             ref="5 C07", note="a transaction of the engine is assumed atomic (contract models); process kill / reopen / torn pages / fsync are behaviour of liblmdb/SQLite behind FFI and of the file system and cannot be encoded (DESIGN 6) - that half is NOT claimed. "),
+ "C08": dict(text="Both backends: store {e0, bystander} + arriving kind-5 event with symbolic authors, timestamps (older/equal/newer) and e/p tags by selector (own, foreign, unknown, non-hex, bare, upper-case ids; pairs on SQL): removed set within the must/may sets of refs/effects.py, everything else untouched; /e/<id> no longer serves an event its author deleted (viewed before or not).",
+             ref="5 C08", note="lmdb contract model / SQL engine model (also interprets raw SQL text DML). "),
+ "C09": dict(text="Both backends: kinds {0,3,10000,19999,30000,39999} vs neighbours {1,4,9999,20000,40000,10001}, d tags {absent,a,ab,bare,empty,unicode}, symbolic authors and timestamps (in-order, out-of-order, equal), one or two older versions present, symbolic SELECT order: older same-address versions removed, nothing else; no valid event refused.",
+             ref="5 C09", note="histories of 2-3 events. "),
+ "C10": dict(text="LMDB key set == tombstone + primary + index keys (reference layout) of the stored events after 20 families of histories; write/clear symmetry for symbolic kind/created_at; tag values equal across JSON types with real caches; coherence after an injected engine failure at a symbolic mutation.",
+             ref="5 C10", note="lmdb contract model; msgpack identity stub; FTS index absent and outside. "),
+ "C11": dict(text="LMDB end to end: answers unchanged by a non-matching neighbour (5 shapes), narrower filters return subsets, multi-value answers equal the union of single-value answers (with optional until); SQL: the narrower filter's WHERE implies the wider one's (extra tag condition, since incl. since == until, smaller until).",
+             ref="5 C11", note="stores of 1-2 events + 1 neighbour. "),
+ "C12": dict(text="LMDB end to end over stores of 2 symbolic events, every index incl. chained and composite, symbolic limit: <= limit, sound, exactly once, complete under the limit, newest first (per-value scan order of multi-value filters = known finding); client limits 0..10^9 capped by max_limit; SQL: LIMIT = min(n, max_limit) incl. n = 0 and ORDER BY created_at DESC for 4 filter shapes (one shared LIMIT for several filters = known finding).",
+             ref="5 C12", note="known findings are listed in known_findings.jsonl with narrow triggers; the obligation is re-run with the trigger excluded. "),
+ "C13": dict(text="Every REQ shape (6 sub-id types x 8 filter-list shapes x 0-2 stored events x permission) is answered by stored events + exactly one EOSE or by a NOTICE; sequences of <=2 (3) messages from 10 (REQ/CLOSE/replace incl. invalid or missing filters and numeric ids) followed by another connection's EVENT: EOSE/NOTICE counts, live delivery only to open matching subscriptions, limit respected, registry empty after disconnect.",
+             ref="5 C13", note="loop model: the next client message is delivered when the relay is idle. "),
+ "C14": dict(text="can_do == role-set intersection for all subsets of a 3-role alphabet, token shapes and actions; save gate on both backends and query gate raise 'restricted' before any effect; output validator consulted on live pushes; homeserver recipe validators equal their documented predicate.",
+             ref="5 C14", note="role read-back through the SQL engine / signed service events is outside (engine + secp256k1). "),
+ "C15": dict(text="check_auth_event/authenticate for every combination of <=2 (3) tags out of 13 variants, symbolic kind/created_at/now and signature oracle, four configurations of relay_urls; replay of a genuine answer with altered signed content (verification caches); every challenge a fresh 128-bit draw per connection.",
+             ref="5 C15", note="signature = oracle; unpredictability of secrets.token_hex itself is not a solver question. "),
  "C16": dict(text="Each validator raises iff its documented bound is violated (symbolic sizes, clocks, kinds, key selectors, PoW bits, p-tag counts); pipeline order/fail-closed; dynamic list contents after refresh; no admission window during refresh with a concurrent validation after every set mutation.",
-             ref="§5 C16", note="clock symbolic ints; executor replaced by a synchronous call; threads modelled at set-operation granularity (GIL); verification.py (NIP-05) cannot be imported (nostr_bot absent) and is outside. "),
- "C20": dict(text="NotifyClient.connect and NotifyServer.handle_notify driven over a fake stream whose chunk boundaries, disconnect offset and handler schedule are symbolic selectors: ids looked up == ids announced (intact, in order, once), nothing for a truncated id, receivers see whole frames only, no echo to the sender, announce iff notifier enabled.",
-             ref="§5 C20", note="asyncio streams replaced by a fake reader implementing read/readexactly per the asyncio contract; <=2 ids, 2 senders + 1 receiver; real TCP outside. "),
- "C01": dict(text="LMDB residual matcher: the real code generator (kv.compile_match_from_query, fed by the real planner) run on holes and its generated predicate executed symbolically against reference NIP-01 matching for 8 filter shapes, all values symbolic (ints) or solver-selected (strings); plus the real repr()-based compilation for 13 hostile names/values (quotes, backslash, NUL, injection attempts).",
-             ref="§5 C01", note="hole technique (DESIGN 2.5): repr() literals of str/int/tuple are assumed to evaluate back to the value and that assumption is validated by ob_literal_roundtrip on the hostile pool. SQL side: see evidence for what is currently included. "),
- "C08": dict(text="LMDB: store {e0, bystander} + arriving kind-5 event with symbolic authors, timestamps (older/equal/newer) and e/p tags by selector (own, foreign, unknown, non-hex, bare, upper-case ids): removed set within the must/may sets of refs/effects.py, everything else and index coherence untouched.",
-             ref="§5 C08", note="LMDB via the contract model (cursor tracking as liblmdb); SQL side: see evidence. "),
- "C09": dict(text="LMDB: store {e0} + arriving e1 over kinds {0,3,10000,19999,30000,39999} vs neighbours {1,4,9999,20000,40000}, d tags {absent,a,ab,bare,empty,unicode}, symbolic authors and timestamps (in-order, out-of-order, equal): older same-address versions removed, nothing else.",
-             ref="§5 C09", note="LMDB via the contract model; histories of 2 events (3 in C10); SQL side: see evidence. "),
- "C10": dict(text="LMDB key set == tombstone + primary + index keys (reference layout) of the stored events after 20 families of histories (add, duplicate add, delete stored/unknown id, replaceable, parameterised replaceable, kind-5, ephemeral) with symbolic authors/timestamps and tag shapes by selector; write/clear symmetry for symbolic kind/created_at.",
-             ref="§5 C10", note="LMDB via the contract model stubs/lmdb; msgpack identity stub; FTS index (whoosh) absent and outside. "),
- "C05": dict(text="Live matching (check_event) equals the real LMDB residual matcher for 6 filter shapes with symbolic ints and solver-selected strings (excused: ephemeral kinds, bound timestamps, LMDB delegation); fan-out over a registry of 2 connections x <=2 subscriptions (same sub id on both, closed and replaced subscriptions) delivers each of two consecutive events exactly once per matching open subscription.",
-             ref="§5 C05", note="loop model envmodel/fake_asyncio.py (FIFO ready queue; environment chooses who speaks next); stored-query tasks stubbed; arbitrary interleavings of relay-internal tasks beyond that model are outside. "),
- "C06": dict(text="Exactly one OK frame per EVENT through the real handler for every storage outcome/throttle/limiter/payload combination; LMDB: OK true implies the event is retrievable after the writer ran (boundary timestamps/kinds 2^31..2^64, tag shapes), refusal leaves no trace, duplicate is not acknowledged or broadcast again.",
-             ref="§5 C06", note="writer thread body executed synchronously on the lmdb model; msgpack identity stub (64-bit overflow of tag ints not modelled); SQL side: see evidence. "),
- "C13": dict(text="Every REQ shape (6 sub-id types x 8 filter-list shapes x 0-2 stored events x permission) is answered by stored events + exactly one EOSE or by a NOTICE; message sequences REQ/CLOSE/replace on one connection followed by another connection's EVENT: EOSE/NOTICE counts, live delivery only to open matching subscriptions, limit respected, registry empty after disconnect.",
-             ref="§5 C13", note="loop model: the client's next message is delivered when the relay is idle; stored-query body stubbed by its contract (events then one sentinel). "),
- "C19": dict(text="One symbolic parsed message (8 heads x 32 JSON values of every type x 6 x arity, or a bare value) in 3 handler modes, followed by a probe REQ and a disconnect, next to a second connection: no exception escapes, the probe is answered or the socket closed, only protocol frames are sent, registry and tasks cleaned up, the other connection untouched.",
-             ref="§5 C19", note="raw text -> JSON (rapidjson) assumed to return a JSON value or raise JSONDecodeError; sizes/nesting depth are resource questions outside. "),
- "C07": dict(text="LMDB writer with the engine failing at a symbolic mutation inside the application of an event (regular, replacing, parameterised-replacing, deleting, ephemeral scenarios): the store equals exactly the state before the event, the next queued task is applied completely, a fault inside the next task leaves it all-or-nothing.",
-             ref="§5 C07", note="ONLY the injected-engine-error half of the property: a transaction of the engine is assumed atomic (contract model); process kill, reopen, torn pages and fsync are behaviour of liblmdb/SQLite behind FFI and the file system and cannot be encoded (DESIGN §6) – that half is not claimed. SQL side: see evidence. "),
- "C11": dict(text="LMDB end to end (real planner, scanner, generated matcher): the answer to a filter is unchanged by storing a non-matching neighbour (adjacent kind, extending/prefixing tag value, equal timestamp with smaller/larger id, other author), narrower filters return subsets, multi-value answers equal the union of single-value answers.",
-             ref="§5 C11", note="stores of 1-2 events + 1 neighbour on the lmdb contract model; SQL side follows from the row-wise WHERE predicate (see evidence for what is included). "),
- "C12": dict(text="LMDB end to end: stores of 2 symbolic events, 6 filter shapes (all indexes incl. chained and composite), symbolic limit: never more than the limit, everything returned matches, nothing twice, nothing missing when under the limit, nothing newer left out (per-value scan order of multi-value filters is a recorded known finding); client limits are capped by max_limit for every limit up to 10^9.",
-             ref="§5 C12", note="lmdb contract model; generated matcher via holes; SQL LIMIT/ORDER BY: see evidence. "),
- "C17": dict(text="LMDB garbage-collection pass over stores of 2 events with expiration values around T (T-1, T, T+1, far future, malformed, empty, fewer digits) for T in {1700000000, 1000, 999, 2000000000}: exactly the expired events are removed with all index entries; ephemeral kinds are broadcast but never queued for storage (symbolic kind around both range ends); the periodic driver survives collector exceptions.",
-             ref="§5 C17", note="lmdb contract model; the SQL collector is one fixed DELETE statement whose relational meaning is SQLite/Postgres behaviour (outside; see DESIGN). "),
+             ref="5 C16", note="threads modelled at set-operation granularity (GIL); verification.py (NIP-05) cannot be imported and is outside. "),
+ "C17": dict(text="Both backends: a collector pass at T in {1700000000, 1000, 999, 2*10^9} over 2 events with expiration values T-1/T/T+1/far future/malformed/empty/fewer digits/digit-prefixed text and kinds around the ephemeral range removes exactly the expired and ephemeral ones with all index/tag rows; ephemeral kinds are broadcast but never queued on LMDB; the periodic driver survives collector exceptions.",
+             ref="5 C17", note="lmdb contract model / SQL engine model. "),
+ "C18": dict(text="Every arrival sequence of <=3 (4) messages over an integer clock, rule sets of one or two rules per scope (ip/global/address), two addresses, two commands: window bound, no over-blocking, address override, exemption, bounded state, cleanup interleaved with arrivals, option parsing.",
+             ref="5 C18", note="clock = arbitrary non-decreasing integers (exact arithmetic; float rounding outside). "),
+ "C19": dict(text="One symbolic parsed message (8 heads x 32 JSON values of every type x 6 x arity, or a bare value) in 3 handler modes, delivered when idle or buffered in advance, followed by a probe REQ and a disconnect, next to a second connection: nothing escapes, the probe is answered or the socket closed, only protocol frames, registry and tasks cleaned up, the other connection untouched; failing EVENTs against the SQL store never wedge a later connection.",
+             ref="5 C19", note="raw text -> JSON assumed to return a JSON value or raise; resource exhaustion outside. "),
+ "C20": dict(text="NotifyClient.connect and NotifyServer.handle_notify over a fake stream whose chunk boundaries, disconnect offset and handler schedule are symbolic selectors: ids looked up == ids announced, whole frames only, no echo, complete ids relayed even when the sender disconnects mid-frame; announce iff notifier enabled, exactly once and only after the SQL transaction committed.",
+             ref="5 C20", note="asyncio streams replaced by a fake reader implementing read/readexactly per the asyncio contract; real TCP outside. "),
 }
 NA = {}
 def main():
